@@ -58,45 +58,27 @@ Lemma TB_inj s s' : TB s = TB s' -> s = s'.
 Proof. congruence. Qed.
 Lemma list3_inj {A} (a b c a' b' c' : A) : [a; b; c] = [a'; b'; c'] -> a = a' /\ b = b' /\ c = c'.
 Proof. intros H. inversion H. auto. Qed.
-Lemma list5_inj {A} (a b c d e a' b' c' d' e' : A) :
-  [a; b; c; d; e] = [a'; b'; c'; d'; e'] -> a = a' /\ b = b' /\ c = c' /\ d = d' /\ e = e'.
+Lemma list2_inj {A} (a b a' b' : A) : [a; b] = [a'; b'] -> a = a' /\ b = b'.
 Proof. intros H. inversion H. auto. Qed.
-Lemma list8_inj {A} (a b c d e f g h a' b' c' d' e' f' g' h' : A) :
-  [a; b; c; d; e; f; g; h] = [a'; b'; c'; d'; e'; f'; g'; h'] ->
-  a = a' /\ b = b' /\ c = c' /\ d = d' /\ e = e' /\ f = f' /\ g = g' /\ h = h'.
+Lemma list6_inj {A} (a b c d e f a' b' c' d' e' f' : A) :
+  [a; b; c; d; e; f] = [a'; b'; c'; d'; e'; f'] -> a = a' /\ b = b' /\ c = c' /\ d = d' /\ e = e' /\ f = f'.
 Proof. intros H. inversion H. repeat split; assumption. Qed.
 
-(* completeness of the class list: whatever reaches the files is either hashed or one of the eight
-   unhashed components *)
+(* completeness of the class list: whatever reaches the files is either hashed or one of the two
+   unhashed components (events, line numbers under visualize_deps) *)
 Theorem fp_sound_modulo_unhashed : forall w p c w' p' c',
   fp w p c = fp w' p' c' -> unhashed w p c = unhashed w' p' c' -> files w p c = files w' p' c'.
 Proof. intros w p c w' p' c' Hfp Hun. unfold fp in Hfp. unfold unhashed in Hun.
   set (a := analyse w p) in *. set (a' := analyse w' p') in *.
   apply TN_inj, list3_inj in Hfp. destruct Hfp as (Hc & Hs & Hg).
-  apply list8_inj in Hun. destruct Hun as (U1 & U2 & U3 & U4 & U5 & U6 & U7 & U8).
-  pose proof Hg as Hg'. unfold fp_cfg in Hg'. apply TN_inj, list5_inj in Hg'.
-  destruct Hg' as (Hlib & Hpriv & Hmaps & Hpc & Hfc). apply TA_inj in Hlib, Hpc, Hfc.
-  assert (Hfc' : v_fcase a c = v_fcase a' c').
-  { unfold v_fcase. unfold u_struct_rename_all in U2. apply TN_inj in U2. f_equal.
-    transitivity (map (fun s => TA (eff_fcase c' s)) (isort struct_leb (a_structs a))).
-    - apply map_ext. intros s. unfold eff_fcase. rewrite Hfc. reflexivity.
-    - revert U2. apply map_eq_transfer. intros x y E. apply topt_inj in E. unfold eff_fcase. rewrite E. reflexivity. }
-  assert (Hpc' : v_pcase a c = v_pcase a' c').
-  { unfold v_pcase. unfold u_cmd_rename_all in U4. apply TN_inj in U4. f_equal.
-    transitivity (map (fun k => TA (eff_pcase c' k)) (a_cmds a)).
-    - apply map_ext. intros k. unfold eff_pcase. rewrite Hpc. reflexivity.
-    - revert U4. apply map_eq_transfer. intros x y E. apply topt_inj in E. unfold eff_pcase. rewrite E. reflexivity. }
+  apply list2_inj in Hun. destruct Hun as (U6 & U8).
+  pose proof Hg as Hg'. unfold fp_cfg in Hg'. apply TN_inj, list6_inj in Hg'.
+  destruct Hg' as (Hlib & Hpriv & Hmaps & Hpc & Hfc & Hviz). apply TA_inj in Hlib. apply TB_inj in Hviz.
   assert (Hev : has_events a = has_events a').
   { unfold u_events in U6. apply TN_inj in U6. unfold has_events.
     destruct (a_events a), (a_events a'); cbn [map] in U6; try discriminate; reflexivity. }
-  assert (Hviz : g_viz c = g_viz c') by (unfold u_viz in U7; apply TB_inj in U7; exact U7).
   unfold files. fold a a'.
-  rewrite Hc, Hs, Hg, Hlib, U1, U3, U5, U6, U8, Hfc', Hpc', Hev, Hviz. reflexivity. Qed.
-
-Lemma diff_idx_nil : forall l m n, length l = length m -> diff_idx n l m = [] -> l = m.
-Proof. induction l as [|x l IH]; intros [|y m] n Hl Hd; cbn in *; try discriminate; [reflexivity|].
-  destruct (tree_eqb x y) eqn:E; cbn [app] in Hd; [|discriminate].
-  apply tree_eqb_spec in E. subst y. f_equal. eapply IH; [lia|exact Hd]. Qed.
+  rewrite Hc, Hs, Hg, Hlib, U6, U8, Hev, Hviz. reflexivity. Qed.
 
 Notation InvW_c := (InvW project config sched fname tree tree files fp).
 Notation up_to_date_c := (up_to_date project config sched fname tree tree files).
@@ -115,5 +97,8 @@ Proof. destruct sg as [st g]. intros Hk g0 Hg Hca Hc Hf Hh. cbn [fst snd] in *. 
     apply tree_eqb_spec. exact E. }
   split.
   - apply fp_sound_modulo_unhashed; [exact Hfp|].
-    apply tree_eqb_spec in Hfp. rewrite Hfp in Hu. eapply diff_idx_nil; [reflexivity|exact Hu].
+    apply tree_eqb_spec in Hfp. rewrite Hfp in Hu. apply app_eq_nil in Hu. destruct Hu as [H6 H8].
+    unfold unhashed. f_equal; [|f_equal].
+    + destruct (tree_eqb (u_events _) (u_events _)) eqn:E in H6; [|discriminate]. apply tree_eqb_spec. exact E.
+    + destruct (tree_eqb (u_lines _ _) (u_lines _ _)) eqn:E in H8; [|discriminate]. apply tree_eqb_spec. exact E.
   - unfold present. destruct (forallb _ (files w0 p0 c0)) eqn:E in Hl; [|discriminate]. exact E. Qed.
